@@ -115,7 +115,7 @@ func c06Check(c *C06Case) c06Verdict {
 		files = []run.InFile{{Name: "in", Data: []byte("7")}}
 	}
 	minSrc := ast.SourceMin(prog)
-	fullSrc := ast.Source(prog)
+	fullSrc := ast.Render(prog, ast.FullTargets).Join(ast.Canonical{}).Src
 	v := c06Verdict{Src: minSrc}
 	iMin := run.InProc(minSrc, files, nil, run.Opts{Budget: implBudget})
 	iFull := run.InProc(fullSrc, files, nil, run.Opts{Budget: implBudget})
@@ -463,6 +463,20 @@ func TestC06(t *testing.T) {
 			runCase(&C06Case{Expr: ast.Bin(op, ast.Asg(aop, x, ast.Id("n1")), ast.Id("n2")), Tag: "(x " + aop + " a) " + op + " b"}, true, "assignment-vs-binary")
 			runCase(&C06Case{Expr: ast.Bin(op, ast.Id("n1"), ast.Asg(aop, x, ast.Id("n2"))), Tag: "a " + op + " (x " + aop + " b)"}, true, "assignment-vs-binary")
 		}
+	}
+	// the same with member and index expressions as targets: in the fully parenthesised form
+	// the target itself stands in parentheses ((o1.k) = 5, (a1[0]) += 1, (o1.k)++)
+	mx, my := ast.Mem(ast.Id("o1"), "k"), ast.Idx(ast.Id("a1"), ast.Num("0"))
+	for _, aop := range []string{"=", "+=", "-=", "*=", "/="} {
+		for _, bop := range []string{"=", "+=", "*="} {
+			runCase(&C06Case{Expr: ast.Asg(aop, mx, ast.Asg(bop, my, ast.Num("6"))), Tag: "o1.k " + aop + " a1[0] " + bop + " 6"}, true, "assignment-chain", "member-or-index-target")
+			runCase(&C06Case{Expr: ast.Bin("+", ast.Asg(aop, my.Clone(), ast.Num("2")), ast.Asg(bop, mx.Clone(), ast.Num("3"))), Tag: "(a1[0] " + aop + " 2) + (o1.k " + bop + " 3)"}, true, "assignment-vs-binary", "member-or-index-target")
+		}
+	}
+	for _, tr := range []*ast.Node{
+		ast.Bin("*", ast.Post("++", mx.Clone()), ast.Num("3")), ast.Bin("-", ast.Num("10"), ast.Pre("--", my.Clone())), ast.Bin("+", ast.Pre("++", mx.Clone()), ast.Post("--", my.Clone())),
+	} {
+		runCase(&C06Case{Expr: tr, Tag: "++/-- on member and index targets"}, true, "incdec-in-parens", "member-or-index-target")
 	}
 	// parentheses override everything: ++/-- only inside parentheses
 	for _, tr := range []*ast.Node{
